@@ -60,7 +60,8 @@ def main():
         own = results.get(f"{prop}/quick") or meta.get("quick_check", {})
         ok = own.get("rc") == 1
         c += ok
-        others = sorted(k.split("/")[0] for k, v in results.items() if v.get("rc") == 1 and not k.startswith(prop + "/"))
+        others = sorted({k.split("/")[0] + (" (thorough)" if "/thorough" in k else "") for k, v in results.items()
+                         if v.get("rc") == 1 and not k.startswith(prop + "/quick")})
         notes = (meta.get("needs_to_manifest") or "").strip().splitlines()
         brief = " ".join(ln.strip("# ").strip() for ln in notes[:40] if ln.strip())[:260].replace("|", "/")
         sig = "; ".join(own.get("signatures", [])[:2])
